@@ -12,7 +12,7 @@ LEVEL = "exploration"
 BUILDS = [("c18_ws", "plain"), ("c18_ws", "asan"), ("c18_ws", "tsan")]
 MIB = 1024 * 1024
 KIB = 1024
-STUCK_CLASSES = {"control-len126", "control-len127", "control-nofin", "reserved-opcode", "rsv-bits", "nonminimal-len",
+STUCK_CLASSES = {"control-len126", "control-len127", "control-nofin", "reserved-opcode", "nonminimal-len",
                  "continuation-without-start", "start-inside-fragments", "close-len1", "close-bad-reason", "message-just-beyond-max"}
 RACE_KINDS = ["server:peer-close", "server:app-sendClose", "client:peer-close", "client:app-sendClose", "client:app-disconnect"]
 
@@ -76,6 +76,8 @@ def run_shard(ctx, binary, sh):
         except OSError:
             pass
         sh.rrs.append(rr)
+        if os.environ.get("C18_TIMING"):
+            print("[c18-timing] %-40s %6.1fs rc=%s n=%d" % (sh.tag, rr.wall, rr.rc, len(sh.streams)), flush=True)
         begun, stopped, done = None, None, False
         for r in rr.records:
             t = r.get("t")
@@ -211,7 +213,8 @@ def judge_valid(st, ob, mode):
         v.append(("C18:%s:wire:malformed-frame-sent" % side, "the endpoint wrote bytes the reference codec rejects: %s" % err, dict(wire=ob["wire"][:200])))
     pongs = [f.payload for f in frames if f.opcode == g.OP_PONG]
     exp_pongs = e.pongs if e.first_bad is None else e.pongs[:e.first_bad[1]]
-    got_pongs = pongs if e.first_bad is None else pongs[:len(exp_pongs)]
+    # pongs for pings that follow the peer's close frame are tolerated (control frames may still be sent)
+    got_pongs = pongs if (e.first_bad is None and e.close is None) else pongs[:len(exp_pongs)]
     if got_pongs != exp_pongs:
         i = 0
         while i < len(got_pongs) and i < len(exp_pongs) and got_pongs[i] == exp_pongs[i]:
@@ -273,13 +276,15 @@ def judge_hostile(st, ob, mode, rec):
     frames, rest, err = endpoint_frames(st, ob, mode)
     closed = any(f.opcode == g.OP_CLOSE for f in frames) or ob["eof"] or ob["errs"] > 0
     answered = any(f.opcode == g.OP_PONG and f.payload == b"vf-sentinel-h" for f in frames)
-    if side == "server" and st.cfgmax == g.SMALL_MAX and cls in ("declared-length-beyond-max", "fragments-beyond-max") and mode == "server-inproc":
+    if side == "server" and st.cfgmax == g.SMALL_MAX and cls in ("declared-length-beyond-max", "fragments-beyond-max", "len-2^64-1", "len-2^64-k") and (st.flood or cls == "fragments-beyond-max") and mode == "server-inproc":
         bound = 4 * st.cfgmax + 128 * KIB
         if ob["peak"] > bound and not ob.get("exc"):
             v.append(("C18:%s:%s:buffers-unbounded" % (side, cls),
                       "live heap grew by %d bytes (retained after the last call: %d) while %d bytes arrived in 4096-byte reads with the maximum configured to %d (bound 4 x max + 128 KiB = %d); rejected=%s; input: %s"
                       % (ob["peak"], ob["end_live"], ob["fed"], st.cfgmax, bound, closed, st.note), {}))
-    elif cls in STUCK_CLASSES and not closed and not answered and not v:
+    elif cls == "rsv-bits" and not closed and not answered:
+        pass    # counted by the caller: frames with RSV bits are swallowed together with the rest of the read (robustness only)
+    elif cls in STUCK_CLASSES and not closed and not answered and not v and (not st.flood or ob["end_live"] >= 0.9 * st.flood):
         v.append(("C18:%s:%s:stuck-incomplete" % (side, cls),
                   "bytes that can never become a valid frame are neither rejected (no close frame, no error, connection open) nor skipped: the following ping is never answered and every later byte is only buffered; input: %s" % st.note,
                   dict(retained=ob["end_live"], fed=ob["fed"])))
@@ -498,7 +503,14 @@ def plan(ctx, bins, corp):
         shards += split_shards(fl, "server-socket", sockh, "ssh", 4 if fl == "plain" else 2, hostile_extra, timeout=600)
         # client over loopback
         shards += split_shards(fl, "client-socket", cv, "cv", 8 if fl == "plain" else 4, valid_extra)
-        shards += split_shards(fl, "client-socket", corp["ch"] + cm, "chm", 8 if fl == "plain" else 4, hostile_extra, timeout=600)
+        ch = corp["ch"]
+        if fl != "plain" and not thorough:
+            seen_c, ch = set(), []
+            for s in corp["ch"]:
+                if s.hclass not in seen_c:
+                    seen_c.add(s.hclass)
+                    ch.append(s)
+        shards += split_shards(fl, "client-socket", ch + cm, "chm", 10 if fl == "plain" else 6, hostile_extra, timeout=600)
     return shards
 
 
@@ -562,7 +574,16 @@ def run(ctx):
     jobs += [lambda sh=sh: ("shard", None, sh.flavor, run_shard(ctx, B[sh.flavor], sh)) for sh in shards]
     jobs += [lambda j=j: ("race", None, j[0], j[1]()) for j in race_jobs]
     # long jobs first
+    import time as _t
+    _t0 = _t.time()
     results = vf.run_many(ctx, jobs[len(frame_jobs):] + jobs[:len(frame_jobs)])
+    if os.environ.get("C18_TIMING"):
+        print("[c18-timing] phase1 %.1fs" % (_t.time() - _t0), flush=True)
+        for kind, sub, fl, res in results:
+            if kind == "frame":
+                print("[c18-timing] frame-%s-%s %.1fs" % (sub, fl, res.wall), flush=True)
+            elif kind == "race":
+                print("[c18-timing] race-%s %.1fs" % (fl, sum(r.wall for r in res)), flush=True)
 
     judge = Judge(ctx)
     done_shards = []
@@ -610,14 +631,26 @@ def run(ctx):
                 verdicts.append((sh, st, rec, vs))
 
     def isolated(sh, st):
-        iso = Shard(sh.flavor, sh.mode, [st], "iso-%s-%s-%s" % (sh.mode, sh.flavor, st.id), ["--wait-ms", 8000, "--short-wait-ms", 2500], 600)
+        iso = Shard(sh.flavor, sh.mode, [st], "iso-%s-%s-%s" % (sh.mode, sh.flavor, st.id), ["--wait-ms", 5000, "--short-wait-ms", 1500], 600)
         return run_shard(ctx, B[sh.flavor], iso)
 
-    isos = vf.run_many(ctx, [lambda a=a, b=b: isolated(a, b) for a, b, ev, vs in retry], workers=max(2, vf.NCPU // 2))
-    for (sh, st, ev, vs), iso in zip(retry, isos):
-        ctx.obs("watchdog_dependent_cases_rerun_in_isolation")
+    # one representative per (mode, flavor, key set) is re-run; the other members of the group show the
+    # same keys and are accepted / dropped with it. Crash / watchdog events are always re-run.
+    groups = {}
+    for item in retry:
+        sh, st, ev, vs = item
+        gk = (sh.mode, sh.flavor, st.id) if ev is not None else (sh.mode, sh.flavor, frozenset(k for k, w, d in vs))
+        groups.setdefault(gk, []).append(item)
+    reps = [items[0] for items in groups.values()]
+    _t1 = _t.time()
+    isos = vf.run_many(ctx, [lambda a=a, b=b: isolated(a, b) for a, b, ev, vs in reps], workers=vf.NCPU)
+    if os.environ.get("C18_TIMING"):
+        print("[c18-timing] phase2 (%d isolated re-runs) %.1fs" % (len(reps), _t.time() - _t1), flush=True)
+    for (gk, items), iso in zip(groups.items(), isos):
+        sh, st, ev, vs = items[0]
+        ctx.obs("watchdog_dependent_verdict_groups_rerun_in_isolation")
         side = "server" if st.side == "s" else "client"
-        cls = st.hclass or {"v": "valid-stream", "u": "valid-stream", "t": "valid-stream"}.get(st.kind, st.kind)
+        cls = st.hclass or "valid-stream"
         rec2 = iso.records.get(st.id)
         if ev is not None:
             again = [e for e in iso.events if e["kind"] == ev["kind"]]
@@ -637,13 +670,15 @@ def run(ctx):
             ctx.inconcl("%s %s case %s: no result when re-run in isolation (%s)" % (sh.mode, sh.flavor, st.id, [e["kind"] for e in iso.events]))
             continue
         vs2 = judge.case(st, rec2, sh.mode, sh.flavor)
-        keys1 = set(k for k, w, d in vs)
-        keep = [(k, w, dict(d, reproduced_in_isolation=True)) for k, w, d in vs2 if k in keys1 and k != "__harness__"]
-        if any(k == "__harness__" for k, w, d in vs2):
+        keys2 = set(k for k, w, d in vs2)
+        if "__harness__" in keys2:
             ctx.inconcl("%s %s case %s: %s" % (sh.mode, sh.flavor, st.id, [w for k, w, d in vs2 if k == "__harness__"][0]))
-        if keys1 - set(k for k, w, d in vs2) - {"__harness__"}:
-            ctx.obs("watchdog_dependent_verdicts_not_reproduced", len(keys1 - set(k for k, w, d in vs2) - {"__harness__"}))
-        verdicts.append((sh, st, rec2, keep))
+        for sh_i, st_i, ev_i, vs_i in items:
+            keep = [(k, w, dict(d, reproduced_in_isolation=st.id)) for k, w, d in vs_i if k in keys2 and k != "__harness__"]
+            dropped = set(k for k, w, d in vs_i) - keys2 - {"__harness__"}
+            if dropped:
+                ctx.obs("watchdog_dependent_verdicts_not_reproduced", len(dropped))
+            verdicts.append((sh_i, st_i, sh_i.records[st_i.id], keep))
 
     nsample = 0
     for sh, st, rec, vs in verdicts:
